@@ -197,7 +197,10 @@ impl Variant {
         if let Some(value) = self.bool_value {
             value
         } else if !self.string_value.is_empty() {
-            str_to_bool(&self.string_value).expect("Can't parse boolean value")
+            match str_to_bool(&self.string_value) {
+                Some(value) => value,
+                None => error_exit("Can't parse boolean value", &self.string_value),
+            }
         } else if let Some(int_value) = self.int_value {
             int_value == 1
         } else if let Some(float_value) = self.float_value {
